@@ -282,6 +282,10 @@ pub(crate) struct World {
     /// the startup read of the state file).
     pub first_write_begun: bool,
     pub writes_this_incarnation: u32,
+    /// Layer B: blocks served to the reader in this incarnation before the submitter made its
+    /// first account query (i.e. before it started to drain its channel).
+    pub served_before_drain: u32,
+    pub drain_started: bool,
 }
 
 impl World {
@@ -344,6 +348,8 @@ impl World {
             in_write: false,
             first_write_begun: false,
             writes_this_incarnation: 0,
+            served_before_drain: 0,
+            drain_started: false,
             cfg,
         };
         let extra = extra_kill.map(|when| Op::Kill {
